@@ -409,6 +409,10 @@ func gobDecodeItem(data []byte) (Item, error) {
 		} else {
 			_, isObject = mm["id"]
 		}
+		if !isObject && len(mm) > 0 {
+			// NOTE(marius): an object which has neither a type, nor an id is still an object
+			isObject = true
+		}
 	}
 	if isObject {
 		it, err := ItemTyperFunc(typ)
